@@ -71,7 +71,7 @@ def main(tier):
                 metas.append((cid, W, W2, d1, d2))
             outs = h.run(cmds)
             per = len(LIST_FORMATS) + len(DIFF_FORMATS)
-            lcases, dcases, tcases, xcases, xinfo, info = [], [], [], [], {}, {}
+            lcases, dcases, tcases, xcases, x3cases, xinfo, info = [], [], [], [], [], {}, {}
             for j, (cid, W, W2, d1, d2) in enumerate(metas):
                 lo = dict(zip(LIST_FORMATS, outs[per * j: per * j + len(LIST_FORMATS)]))
                 do = dict(zip(DIFF_FORMATS, outs[per * j + len(LIST_FORMATS): per * (j + 1)]))
@@ -157,7 +157,12 @@ def main(tier):
                 if xo['txt']['outcome'] != 'ok':
                     continue
                 payload = {'kind': 'exposure-format', 'world': W, 'manifests': [m for m, _ in gen.docs(W)]}
+                run.dist('exposure-bytes:txt')
                 xcases.append('(mkXFmt %s %s %s %s)' % (cnat(cid), c_entries_full(xo['txt']), c_xpeers(xo['txt']), cstr(xo['txt'].get('out', ''))))
+                if all(xo[f]['outcome'] == 'ok' for f in ('md', 'csv', 'json')):
+                    run.dist('exposure-bytes:md+csv+json')
+                    x3cases.append('(mkXFmt3 %s %s %s %s %s %s)' % (cnat(cid), c_entries_full(xo['txt']), c_xpeers(xo['txt']), cstr(xo['md'].get('out', '')),
+                                                                   cstr(xo['csv'].get('out', '')), cstr(xo['json'].get('out', ''))))
                 xinfo[cid] = (payload, xo)
                 want_rows, want_unprot = fmt.api_exposure_rows(xo['txt'])
                 if len(want_rows) >= 3:
@@ -194,12 +199,13 @@ def main(tier):
             run.cov['traces_validated_against_impl'] += len(metas)
             if k == 0 and metas:
                 run.sample({'list_txt': info[metas[0][0]][1]['txt'].get('out', '')[:600]})
-            text = ['From Coq Require Import List ZArith String.', 'From NP Require Import IntervalSet ConnSet World Build Connlist Diff Format XFormat RowInj.',
+            text = ['From Coq Require Import List ZArith String.', 'From NP Require Import IntervalSet ConnSet World Build Connlist Diff Format XFormat XFormatMore RowInj.',
                     'Import ListNotations.', 'Open Scope Z_scope.', 'Definition lcases : list fmt_case := [', ';\n'.join(lcases), '].',
                     'Definition dcases : list dfmt_case := [', ';\n'.join(dcases), '].',
                     'Definition xcases : list xfmt_case := [', ';\n'.join(xcases), '].', 'Definition XM := Eval vm_compute in xfmt_mismatches xcases.',
+                    'Definition x3cases : list xfmt3_case := [', ';\n'.join(x3cases), '].', 'Definition X3M := Eval vm_compute in xfmt3_mismatches x3cases.',
                     'Definition tcases : list dot_case := [', ';\n'.join(tcases), '].', 'Definition TM := Eval vm_compute in dot_mismatches tcases.',
-                    'Definition MM := Eval vm_compute in fmt_mismatches lcases.', 'Definition DM := Eval vm_compute in dfmt_mismatches dcases.', 'Definition PM := Eval vm_compute in printable_mismatches lcases.', 'Print MM.', 'Print DM.', 'Print PM.', 'Print TM.', 'Print XM.']
+                    'Definition MM := Eval vm_compute in fmt_mismatches lcases.', 'Definition DM := Eval vm_compute in dfmt_mismatches dcases.', 'Definition PM := Eval vm_compute in printable_mismatches lcases.', 'Print MM.', 'Print DM.', 'Print PM.', 'Print TM.', 'Print XM.', 'Print X3M.']
             rc, out, err = core.run_coq_text('\n'.join(text))
             if rc != 0:
                 raise RuntimeError('coqc on format cases failed: ' + err[-1500:])
@@ -219,6 +225,14 @@ def main(tier):
                 else:
                     run.report(None, 'xbytes-txt-%d' % cid, dict(payload, format='txt', output=xo['txt'].get('out'), exposure=xo['txt'].get('exposure')),
                                'list --exposure txt output differs byte-wise from the exposure-format model applied to the API result')
+            x3m = core.parse_pairs(out, 'X3M')
+            if x3m is None:
+                raise RuntimeError('no X3M in coqc output')
+            for cid, code in x3m[:4]:
+                payload, xo = xinfo[cid]
+                f = names[code]
+                run.report(None, 'xbytes-%s-%d' % (f, cid), dict(payload, format=f, output=xo[f].get('out'), exposure=xo['txt'].get('exposure')),
+                           'list --exposure %s output differs byte-wise from the exposure-format model applied to the API result' % f)
             tm = core.parse_pairs(out, 'TM')
             if tm is None:
                 raise RuntimeError('no TM in coqc output')
